@@ -511,7 +511,7 @@ func checkC14(c *Ctx) {
 		render = f
 	}
 	if render == nil {
-		c.undecided("C14.R4", "the line-rendering method (parameter []*tree.LineFormattedTextElement) was not found")
+		c14R4WrittenOut(c, m)
 		return
 	}
 	c.fn(render)
@@ -580,6 +580,138 @@ func checkC14(c *Ctx) {
 	})
 	c.ob("C14.R4", render.Name+"/text-built-locally", w.Pos(render.Decl.Pos()), okLocal, map[bool]string{true: "the text handed to ParseMarkup is the content of a builder declared in this call", false: "the text handed to ParseMarkup is " + got + ", not the content of a builder local to this call"}[okLocal])
 	// the parser field is used only through ParseMarkup
+	for _, f := range w.FuncsIn(m.pkg) {
+		if f.Body == nil {
+			continue
+		}
+		ast.Inspect(f.Body, func(n ast.Node) bool {
+			se, ok := n.(*ast.SelectorExpr)
+			if !ok || lastField(info, se) != m.fLP {
+				return true
+			}
+			if _, isField := info.Selections[se]; !isField {
+				return true
+			}
+			par, ok := w.parent[se].(*ast.SelectorExpr)
+			okU := ok && par.Sel.Name == "ParseMarkup"
+			c.ob("C14.R4", f.Name+"/parser-use", w.Pos(se.Pos()), okU, map[bool]string{true: "the runner's parser is used through ParseMarkup only", false: "the runner's line parser is used other than by calling ParseMarkup"}[okU])
+			return true
+		})
+	}
+}
+
+// c14R4WrittenOut: no rendering method — the rendering (a loop over a line's text elements writing to a builder, then
+// ParseMarkup of the builder's content) is written out where it is used. The same obligations, stated on those regions.
+func c14R4WrittenOut(c *Ctx, m *runnerModel) {
+	w := c.W
+	info := m.pkg.TypesInfo
+	if m.fLP == nil {
+		c.ob("C14.R4", m.next.Name+"/parser-field", w.Pos(m.next.Decl.Pos()), false, "the dialogue runner has no line parser field of its own: lines are parsed by a parser value shared beyond this runner, whose state other runners' lines (or earlier failed lines) can leave behind")
+		return
+	}
+	allowedRead := map[*types.Var]bool{m.fStore: true, m.fFuncs: true, m.fLP: true}
+	rst := m.T.Underlying().(*types.Struct)
+	isRunnerField := func(f *types.Var) bool {
+		for i := 0; i < rst.NumFields(); i++ {
+			if rst.Field(i) == f {
+				return true
+			}
+		}
+		return false
+	}
+	regions := 0
+	for _, f := range w.FuncsIn(m.pkg) {
+		if f.Body == nil || f.Lit != nil {
+			continue
+		}
+		walkNoLit(f.Body, func(n ast.Node) bool {
+			r, ok := n.(*ast.RangeStmt)
+			if !ok {
+				return true
+			}
+			if tv, ok := info.Types[r.X]; !ok || typeStr(tv.Type) != "[]*tree.LineFormattedTextElement" {
+				return true
+			}
+			regions++
+			c.fn(f)
+			key := f.Name + "@" + itoa(regions)
+			// the builder written in the loop
+			var builder types.Object
+			walkNoLit(r.Body, func(q ast.Node) bool {
+				if call, ok := q.(*ast.CallExpr); ok {
+					if sel, ok := unparen(call.Fun).(*ast.SelectorExpr); ok && strings.HasPrefix(sel.Sel.Name, "Write") {
+						if id := identOf(sel.X); id != nil {
+							builder = info.Uses[id]
+						}
+					}
+				}
+				return true
+			})
+			// the parse of that builder's content
+			var parse *ast.CallExpr
+			walkNoLit(f.Body, func(q ast.Node) bool {
+				call, ok := q.(*ast.CallExpr)
+				if !ok {
+					return true
+				}
+				if name, on := methodCallOn(info, call, m.fLP); on && name == "ParseMarkup" && len(call.Args) == 1 {
+					if inner, ok := unparen(call.Args[0]).(*ast.CallExpr); ok {
+						if sel, ok := unparen(inner.Fun).(*ast.SelectorExpr); ok && sel.Sel.Name == "String" {
+							if id := identOf(sel.X); id != nil && builder != nil && info.Uses[id] == builder {
+								parse = call
+							}
+						}
+					}
+				}
+				return true
+			})
+			okLocal := false
+			if v, ok := builder.(*types.Var); ok && parse != nil && !v.IsField() && v.Parent() != v.Pkg().Scope() && v.Pos() > f.Body.Pos() {
+				okLocal = true
+			}
+			c.ob("C14.R4", key+"/text-built-locally", w.Pos(r.Pos()), okLocal, map[bool]string{true: "the text handed to ParseMarkup is the content of a builder declared in this call and filled by this loop", false: "the builder this loop fills is not a local whose content is handed to the runner's ParseMarkup"}[okLocal])
+			nAcc := 0
+			for _, node := range []ast.Node{r, parse} {
+				if node == nil || node == ast.Node((*ast.CallExpr)(nil)) {
+					continue
+				}
+				ast.Inspect(node, func(q ast.Node) bool {
+					se, ok := q.(*ast.SelectorExpr)
+					if !ok {
+						return true
+					}
+					sel, ok := info.Selections[se]
+					if !ok || sel.Kind() != types.FieldVal {
+						return true
+					}
+					fld := sel.Obj().(*types.Var)
+					if !isRunnerField(fld) {
+						return true
+					}
+					// the ranged expression itself (evaluated once, before the region) may come from the continuation
+					if se.Pos() >= r.X.Pos() && se.End() <= r.X.End() {
+						return true
+					}
+					nAcc++
+					okF := allowedRead[fld]
+					if as, ok := w.parent[se].(*ast.AssignStmt); ok {
+						for _, l := range as.Lhs {
+							if unparen(l) == ast.Expr(se) {
+								okF = false
+							}
+						}
+					}
+					c.ob("C14.R4", key+"/runner-field "+fld.Name()+"#"+itoa(nAcc), w.Pos(se.Pos()), okF, map[bool]string{true: "rendering uses " + fld.Name(), false: "rendering a line reads or writes the runner's " + fld.Name() + ": what an earlier (possibly failed) line left there would change this line's result"}[okF])
+					return true
+				})
+			}
+			return true
+		})
+	}
+	if regions == 0 {
+		c.undecided("C14.R4", "neither a line-rendering method nor a written-out rendering loop was found")
+		return
+	}
 	for _, f := range w.FuncsIn(m.pkg) {
 		if f.Body == nil {
 			continue
